@@ -34,6 +34,16 @@ fn main() {
     if std::env::var("VERIF_QUIET_PANICS").is_ok() || crate::util::QUIET.with(|q| q.get()) {
       return;
     }
+    // a panic raised inside the code under test on a thread the harness does not control (the in-process
+    // HTTP server's workers) is data: it is recorded and its consequences are observed by the check
+    let file = info.location().map(|l| l.file().to_string()).unwrap_or_default();
+    let in_harness = file.starts_with("src/") || file.contains("/verif/harness/");
+    if !in_harness && std::thread::current().name().map_or(true, |n| n != "main") {
+      if let Ok(mut g) = crate::util::UNDER_TEST_PANICS.lock() {
+        g.push(format!("{}", info));
+      }
+      return;
+    }
     eprintln!("harness panic: {}", info);
     println!("TOOL-ERROR: harness panic: {}", info);
     std::process::exit(2);
